@@ -124,7 +124,8 @@ def build(w, variant='apply'):
                     'same_keys': Forall({'p': 'ints()'}, 'has(exitcodes, p) == has(cleaned, p)'),
                 },
                 'modifies': ['self._pool.*', 'self._poolctrl.*', 'self._on_ready_counters.*', 'cleaned.*', 'exitcodes.*'],
-                'locals': {}},
+                # (Python keeps the names assigned in a loop body bound after the loop: whatever the last worker looked at left)
+                'locals': {'exitcode': opt(IntS)}},
             2: {'inv': {
                     'cache_wf': cache_wf,
                     'reaped_workers_really_exited': Forall({'p': 'ints()'},
@@ -148,6 +149,14 @@ def build(w, variant='apply'):
                         'old(%s._worker_pid) != 0 and all(implies(0 <= j and j < len(self._pool), at(self._pool, j).pid != old(%s._worker_pid)) for j in ints()), '
                         '%s._worker_lost is not None or %s._event.flag)' % (cache, jk, jk, jk, jk, jk)),
                     'no_job_enters_the_cache': Forall(K, 'implies(has(%s, k), old(has(%s, k)))' % (cache, cache)),
+                    # P5: ... "naming the exit status": the record of a job whose worker was reaped in this tick carries that
+                    # worker's exit status (0 where there is none)
+                    'loss_record_names_the_exit_status_of_the_reaped_worker': Forall(K, 'implies(_seen[k] and old(has(%s, k)) and old(%s._worker_lost) is None and %s._worker_lost is not None and '
+                        'old(get(self._cache, k)._worker_pid) is not None and has(cleaned, old(get(self._cache, k)._worker_pid)), '
+                        'val(%s._worker_lost)[1] is not None and val(val(%s._worker_lost)[1]) == '
+                        'ite(get(cleaned, old(get(self._cache, k)._worker_pid)).exitcode is None, 0, val(get(cleaned, old(get(self._cache, k)._worker_pid)).exitcode)))' % (cache, jk, jk, jk, jk)),
+                    'statuses_recorded': Forall({'p': 'ints()'}, 'implies(has(cleaned, p), has(exitcodes, p) and '
+                                                                 'get(exitcodes, p) == get(cleaned, p).exitcode)'),
                     # P4: the instant of detection and the exit status recorded with it are never overwritten (a later tick that
                     # reaps another worker must not re-arm the grace period of a job that is already marked)
                     'a_loss_record_is_never_replaced': Forall(K, 'implies(old(has(%s, k)) and old(%s._worker_lost) is not None, %s._worker_lost == old(%s._worker_lost))' % (cache, jk, jk, jk)),
